@@ -42,7 +42,12 @@ func (t *memTracer) CaptureEnd([]byte, uint64, time.Duration, error) {}
 
 func memSize(rc *h.Rng) *big.Int {
 	max64 := new(big.Int).SetUint64(^uint64(0))
-	switch rc.Intn(12) {
+	switch rc.Intn(14) {
+	case 12:
+		// the top half of the 256-bit range (negative when read as signed), with low 64 bits that look harmless
+		return new(big.Int).Add(new(big.Int).Lsh(big.NewInt(1), 255), new(big.Int).SetUint64(uint64(rc.Intn(3))<<32+uint64(rc.Intn(64))))
+	case 13:
+		return new(big.Int).Sub(new(big.Int).Lsh(big.NewInt(1), 256), big.NewInt(int64(1+rc.Intn(40))))
 	case 0:
 		return new(big.Int)
 	case 1:
@@ -99,7 +104,9 @@ func memEnv(tr *memTracer) *evEnv {
 	env := newEvEnv(params.SelfDestructRefundForkBlock+10, big.NewInt(1), &eligible)
 	cfg := *params.ProgpowColosseumChainConfig
 	cfg.Location = evLoc
-	env.evm = vm.NewEVM(env.evm.Context, env.evm.TxContext, env.sdb, &cfg, vm.Config{Debug: true, Tracer: tr}, nil)
+	bctx := env.evm.Context
+	bctx.BlockNumber = big.NewInt(params.MaxCodeSizeForkHeight + 10) // past the height that enables the newer opcodes (MCOPY, ...)
+	env.evm = vm.NewEVM(bctx, env.evm.TxContext, env.sdb, &cfg, vm.Config{Debug: true, Tracer: tr}, nil)
 	return env
 }
 
@@ -195,7 +202,22 @@ func memAnyOp(o *h.Out, rc *h.Rng, ans func(string)) {
 	case "EXTCODECOPY":
 		a.push(size).pushN(0).push(off).pushB(to).op(vm.EXTCODECOPY)
 	case "MCOPY":
-		a.push(size).push(memSize(rc)).push(off).op(vm.MCOPY)
+		src := memSize(rc)
+		if rc.Chance(50) {
+			// one end far away (top of the 64-bit range, top half of the 256-bit range), the other near, a short length:
+			// the far end decides what has to be paid for
+			far := []*big.Int{new(big.Int).Lsh(big.NewInt(1), 255), new(big.Int).Add(new(big.Int).Lsh(big.NewInt(1), 255), big.NewInt(1<<32)),
+				new(big.Int).Sub(new(big.Int).Lsh(big.NewInt(1), 256), big.NewInt(1)), new(big.Int).Lsh(big.NewInt(1), 64), new(big.Int).SetUint64(^uint64(0) - 31)}[rc.Intn(5)]
+			near := big.NewInt(int64(rc.Intn(128)))
+			size = big.NewInt(int64(1 + rc.Intn(64)))
+			if rc.Bool() {
+				off, src = far, near
+			} else {
+				off, src = near, far
+			}
+			name += "+far"
+		}
+		a.push(size).push(src).push(off).op(vm.MCOPY)
 	case "LOG0":
 		a.push(size).push(off).op(vm.LOG0)
 	case "LOG2":
